@@ -6,7 +6,7 @@ from checks.rt_common import run_rt, corpus, COMMON_ASSUMPTIONS
 def run(tier, replay=None):
     # the corpus of the run-time checks plus statically nested arrays whose inner arrays differ
     # in length, are empty or null (per combination for nested mapped calls)
-    progs = None if replay else corpus(tier) + shapes.nested_nonuniform()
+    progs = None if replay else corpus(tier) + shapes.nested_nonuniform() + shapes.mixed_static_dynamic_flags()
     return run_rt("C03", tier, replay, "all", COMMON_ASSUMPTIONS + [
         "ExpectedJobs = MroSem.Invocations(p): one fork per element/key, chunk count as returned by split, nothing for disabled or empty/null mapped calls",
         "a run that reaches quiescence without completing counts as a skipped job",
